@@ -2426,7 +2426,10 @@ impl Formatter {
     if self.html {
       format!("<span class=\"mech-argument\"><span class=\"mech-argument-name\">{}</span><span class=\"mech-argument-expression\">{}</span></span>",n,e)
     } else {
-      format!("{}{}", n, e)
+      match name {
+        Some(_) => format!("{}: {}", n, e),
+        None => e,
+      }
     }
   }
 
@@ -2905,10 +2908,12 @@ pub fn matrix_column_elements(&mut self, column_elements: &[&MatrixColumn]) -> S
         for (i, (ident, kind)) in kinds.iter().enumerate() {
           let k = self.kind(kind);
           let ident_s = ident.to_string();
+          // only the HTML output escapes the angle brackets
+          let (lt, gt) = if self.html { ("&lt;", "&gt;") } else { ("<", ">") };
           if i == 0 {
-            src = format!("{}&lt;{}&gt;", ident_s, k);
+            src = format!("{}{}{}{}", ident_s, lt, k, gt);
           } else {
-            src = format!("{},{}&lt;{}&gt;", src, ident_s, k);
+            src = format!("{},{}{}{}{}", src, ident_s, lt, k, gt);
           }
         }
         format!("{{{}}}", src)
@@ -2918,10 +2923,12 @@ pub fn matrix_column_elements(&mut self, column_elements: &[&MatrixColumn]) -> S
         for (i, (ident,kind)) in kinds.iter().enumerate() {
           let k = self.kind(kind);
           let ident_s = ident.to_string();
+          // only the HTML output escapes the angle brackets
+          let (lt, gt) = if self.html { ("&lt;", "&gt;") } else { ("<", ">") };
           if i == 0 {
-            src = format!("{}&lt;{}&gt;", ident_s, k);
+            src = format!("{}{}{}{}", ident_s, lt, k, gt);
           } else {
-            src = format!("{},{}&lt;{}&gt;", src, ident_s, k);
+            src = format!("{},{}{}{}{}", src, ident_s, lt, k, gt);
           }
         }
         let mut src2 = "".to_string();
